@@ -34,6 +34,7 @@ func TestVerif(t *testing.T) {
 	}
 	Rec = rec
 	InstallSink(rec, CaptureHook)
+	StartWatchdog(rec)
 	rapid.VerifSetGate(GateFn)
 	switch *fMode {
 	case "scenarios":
